@@ -10,10 +10,12 @@ import (
 // change what is stored, and later writes, deletes, compaction and table recycling do not change them;
 // buffers passed to Put may be reused.
 func VerifC18_Snapshot() {
+	pre := vpBound("pre")
 	steps := vpBound("steps")
 	big := vpBound("biglen")
 	size := vpU64("tableSize")
 	vpAssume(size >= 31 && size <= uint64(4*(30+big)))
+	vpIdleNow = vpChoose("idle", 2) == 1
 	s := vpMkStore(size)
 	ref := make([]vpRef, 2)
 
@@ -28,7 +30,13 @@ func VerifC18_Snapshot() {
 	buf[0] ^= 0xff
 	vpCheckStore(s, ref)
 
-	// obtain a value through one of the read paths
+	// history before the read: the key may end up in a sealed (read-only) table, be moved by compaction, ...
+	for i := 0; i < pre; i++ {
+		s = vpStep(s, ref, 2, big, size, 2*(pre+steps)+4, 4)
+	}
+	vpAssume(ref[0].present && len(ref[0].val) > 0)
+
+	// obtain the value through one of the read paths
 	var got []byte
 	switch vpChoose("read", 3) {
 	case 0:
@@ -36,10 +44,27 @@ func VerifC18_Snapshot() {
 		vpAssume(gerr == nil)
 		got = g.Value()
 	case 1:
-		_, serr := s.Scan(0, 10, func(x storage.Entry) bool { got = x.Value(); return true })
-		vpAssume(serr == nil)
+		cursor := uint64(0)
+		for i := 0; i < 8; i++ {
+			next, serr := s.Scan(cursor, 10, func(x storage.Entry) bool {
+				if x.Key() == vpKeyNames[0] {
+					got = x.Value()
+				}
+				return true
+			})
+			vpAssume(serr == nil)
+			if next == 0 {
+				break
+			}
+			cursor = next
+		}
 	case 2:
-		s.Range(func(hk uint64, x storage.Entry) bool { got = x.Value(); return true })
+		s.Range(func(hk uint64, x storage.Entry) bool {
+			if hk == vpHKey(0) {
+				got = x.Value()
+			}
+			return true
+		})
 	}
 	vpAssert(vpBytesEq(got, ref[0].val), "read-returns-stored-value")
 	snap := vpCopyBytes(got)
@@ -51,7 +76,7 @@ func VerifC18_Snapshot() {
 	} else {
 		// (ii) later operations must not alter the returned bytes
 		for i := 0; i < steps; i++ {
-			s = vpStep(s, ref, 2, big, size, 2*steps+4, 4)
+			s = vpStep(s, ref, 2, big, size, 2*(pre+steps)+4, 4)
 		}
 		vpAssert(vpBytesEq(got, snap), "returned-bytes-stable")
 	}
